@@ -296,6 +296,11 @@ pub fn gen_c18(sh: &mut Shards, o: &Opts) -> serde_json::Value {
         // small exponents / exponents near 1
         ps.push((x, rng.range(-2.0, 2.0) as f32));
     }
+    // interleave the exponents (a value-keyed memo of the last exponent / base would otherwise never be disturbed)
+    for i in (1..ps.len()).rev() {
+        let j = rng.below(i as u64 + 1) as usize;
+        ps.swap(i, j);
+    }
     for chunk in ps.chunks(96) {
         let mut s = String::from("\"ev\":\"pow\",\"s\":");
         list(&mut s, chunk, |o2, (x, y)| {
